@@ -2630,7 +2630,7 @@ namespace igris
                 return -1;
             for (size_t i = pos; i < m_size - len; i++)
             {
-                if (memcmp(data() + i, str, len) == 0)
+                if (memcmp(_data + i, str, len) == 0)
                     return i;
             }
             return -1;
